@@ -28,6 +28,7 @@ pub enum ProbeEvent {
 type Channels = (mpsc::Sender<Vec<u8>>, broadcast::Sender<Vec<u8>>);
 
 /// Harness-owned ends of the channels of one gossip session (one answered `Subscribe`).
+#[allow(dead_code)]
 pub struct Overlay {
     pub topic: Topic,
     pub to_gossip_rx: mpsc::Receiver<Vec<u8>>,
@@ -58,6 +59,11 @@ pub struct ProbeState {
     /// request and tell the executor that the request has arrived (so that it re-polls the activity
     /// and sees it parked on the overlay).
     pub current: Option<(usize, Waker)>,
+    /// `Subscribe` requests whose `Gossip::stream` call has not returned yet: (activity, topic).
+    pub in_flight: Vec<(Option<usize>, Topic)>,
+    /// Topics for which a `Subscribe` arrived while the slow path of another call for the same
+    /// topic was still in flight (attribution).
+    pub concurrent_slow_paths: Vec<Topic>,
     pub mpsc_cap: usize,
     pub bcast_cap: usize,
     events_tx: broadcast::Sender<GossipEvent>,
@@ -112,6 +118,10 @@ impl Actor for Probe {
                 s.log.push(ProbeEvent::Subscribe(topic));
                 s.overlays.push(Overlay { topic, to_gossip_rx, from_gossip_tx: from_gossip_tx.clone() });
                 let act = s.current.as_ref().map(|c| c.0);
+                if s.in_flight.iter().any(|(a, t)| *t == topic && *a != act) {
+                    s.concurrent_slow_paths.push(topic);
+                }
+                s.in_flight.push((act, topic));
                 if s.hold {
                     s.held.push(Held { act, topic, reply, channels: (to_gossip_tx, from_gossip_tx) });
                     if let Some((_, w)) = &s.current {
@@ -164,6 +174,8 @@ pub async fn setup(mpsc_cap: usize, bcast_cap: usize) -> Result<World, String> {
         held: vec![],
         replied: vec![],
         current: None,
+        in_flight: vec![],
+        concurrent_slow_paths: vec![],
         mpsc_cap,
         bcast_cap,
         events_tx,
